@@ -32,10 +32,10 @@ package model
 //@   ghost idFailed := false
 //@   ghost signer := 0
 //@   ghost prov := 0
-//@   at call ConsumeEnvelope#1: after ghost envFailed := result2 != nil
-//@   at call IDFromPublicKey#1: after ghost idFailed := result1 != nil
-//@   at call IDFromPublicKey#1: after ghost signer := str(result0)
-//@   at call IDFromPublicKey#1: after ghost prov := str(rec.ProviderID)
+//@   at call ConsumeEnvelope: after ghost envFailed := result2 != nil
+//@   at call IDFromPublicKey: after ghost idFailed := result1 != nil
+//@   at call IDFromPublicKey: after ghost signer := str(result0)
+//@   at call IDFromPublicKey: after ghost prov := str(rec.ProviderID)
 //@   ensures-local result1 != nil ==> envFailed || count("call:IDFromPublicKey") == 0 || idFailed || signer != prov
 
 //@ func ReadRegisterRequest
@@ -48,39 +48,39 @@ package model
 //@   ghost idFailed := false
 //@   ghost signer := 0
 //@   ghost prov := 0
-//@   at call ConsumeEnvelope#1: after ghost envFailed := result2 != nil
-//@   at call IDFromPublicKey#1: after ghost idFailed := result1 != nil
-//@   at call IDFromPublicKey#1: after ghost signer := str(result0)
-//@   at call IDFromPublicKey#1: after ghost prov := str(rec.PeerID)
+//@   at call ConsumeEnvelope: after ghost envFailed := result2 != nil
+//@   at call IDFromPublicKey: after ghost idFailed := result1 != nil
+//@   at call IDFromPublicKey: after ghost signer := str(result0)
+//@   at call IDFromPublicKey: after ghost prov := str(rec.PeerID)
 //@   ensures-local result1 != nil ==> envFailed || count("call:IDFromPublicKey") == 0 || idFailed || signer != prov
 
 // Constructors seal a record whose fields are the arguments.
 //@ func MakeIngestRequest
 //@   property C18
-//@   at call makeRequestEnvelop#1: assert typeis(arg0, "*model.IngestRequest") && arg1 == privateKey
-//@   at call makeRequestEnvelop#1: assert as(arg0, "*model.IngestRequest").ProviderID == providerID && as(arg0, "*model.IngestRequest").Multihash == m
-//@   at call makeRequestEnvelop#1: assert as(arg0, "*model.IngestRequest").ContextID == contextID && as(arg0, "*model.IngestRequest").Metadata == metadata && as(arg0, "*model.IngestRequest").Addrs == addrs
+//@   at call makeRequestEnvelop: assert typeis(arg0, "*model.IngestRequest") && arg1 == privateKey
+//@   at call makeRequestEnvelop: assert as(arg0, "*model.IngestRequest").ProviderID == providerID && as(arg0, "*model.IngestRequest").Multihash == m
+//@   at call makeRequestEnvelop: assert as(arg0, "*model.IngestRequest").ContextID == contextID && as(arg0, "*model.IngestRequest").Metadata == metadata && as(arg0, "*model.IngestRequest").Addrs == addrs
 //@   ensures count("call:makeRequestEnvelop") == 1
 
 //@ func MakeRegisterRequest
 //@   property C18
 //@   loop 1: invariant len(maddrs) == len(addrs)
-//@   at call makeRequestEnvelop#1: assert arg1 == privateKey && as(arg0, "*peer.PeerRecord").PeerID == providerID
+//@   at call makeRequestEnvelop: assert arg1 == privateKey && as(arg0, "*peer.PeerRecord").PeerID == providerID
 //@   ensures result1 == nil ==> len(addrs) > 0
 
 //@ func makeRequestEnvelop
 //@   property C18
-//@   at call Seal#1: assert arg0 == rec && arg1 == privateKey
+//@   at call Seal: assert arg0 == rec && arg1 == privateKey
 //@   ensures result1 == nil ==> count("call:Seal") == 1
 
 // The record methods the envelope calls back (C18): the whole request and nothing else is what gets
 // serialised and signed, and what is opened is decoded into the receiver itself.
 //@ func (*IngestRequest).MarshalRecord
 //@   property C18
-//@   at call Marshal#1: assert typeis(arg0, "*model.IngestRequest") && payload(arg0) == r
+//@   at call Marshal: assert typeis(arg0, "*model.IngestRequest") && payload(arg0) == r
 //@   ensures-local count("call:Marshal") == 1
 //@ func (*IngestRequest).UnmarshalRecord
 //@   property C18
-//@   at call Unmarshal#1: assert arg0 == data && typeis(arg1, "*model.IngestRequest") && payload(arg1) == r && r != nil
+//@   at call Unmarshal: assert arg0 == data && typeis(arg1, "*model.IngestRequest") && payload(arg1) == r && r != nil
 //@   ensures-local r == nil ==> result != nil && count("call:Unmarshal") == 0
 //@   ensures-local r != nil ==> count("call:Unmarshal") == 1
